@@ -19,13 +19,15 @@ struct Body {
     std::string boundary; bool quote_boundary = false;
     std::vector<Part> parts;
     std::vector<int> hdr_style;      // per part: bit0 quoted name, bit1 extra blanks, bit2 lower-case header names, bit3 Content-Type first
+    // quoted-string: '"' and '\\' are backslash-escaped (RFC 7230 3.2.6)
+    static std::string q(std::string const &v) { std::string o = "\""; for (char ch : v) { if (ch == '"' || ch == '\\') o += '\\'; o += ch; } return o + "\""; }
     std::string bytes() const {
         std::string b;
         for (size_t i = 0; i < parts.size(); i++) {
             Part const &p = parts[i]; int st = i < hdr_style.size() ? hdr_style[i] : 1;
             b += "--" + boundary + "\r\n";
-            std::string cd = std::string(st & 4 ? "content-disposition" : "Content-Disposition") + ":" + (st & 2 ? "  " : " ") + "form-data; name=" + (st & 1 ? "\"" + p.name + "\"" : p.name);
-            if (p.is_file) cd += std::string(st & 2 ? " ;  " : "; ") + "filename=\"" + p.filename + "\"";
+            std::string cd = std::string(st & 4 ? "content-disposition" : "Content-Disposition") + ":" + (st & 2 ? "  " : " ") + "form-data; name=" + (st & 1 ? q(p.name) : p.name);
+            if (p.is_file) cd += std::string(st & 2 ? " ;  " : "; ") + "filename=" + q(p.filename);
             std::string ct = p.is_file ? std::string(st & 4 ? "content-type" : "Content-Type") + ": " + p.mime : "";
             if (p.is_file && (st & 8)) b += ct + "\r\n" + cd + "\r\n"; else { b += cd + "\r\n"; if (p.is_file) b += ct + "\r\n"; }
             b += "\r\n" + p.content + "\r\n";
@@ -313,10 +315,15 @@ static Body gen_body(int maxparts, int maxcontent) {
     for (int i = 0; i < n; i++) {
         Part p; p.is_file = *vr::range<int>(0, 2);
         p.name = gtok(1, 10, "abcdefghijklmnopqrstuvwxyzABC0123456789_-");
-        if (p.is_file) { p.filename = gtok(0, 12, "abcdefghijklmnopqrstuvwxyz0123456789_-. ()"); static const char *mimes[] = {"application/octet-stream", "text/plain", "image/png", "text/html"}; p.mime = mimes[*vr::range<int>(0, 4)]; }
+        // quoted parameter values with characters that need quoting or escaping: '"', '\\' (also as the last character), ';', '=', ','
+        static const char *special[] = {"C:\\tmp\\", "a\"b", "x\\", "\\", "\";", "a;b=c", "n=\"v\"", "\\\"", "q\\\\", "semi;colon", "co,mma", "\"\""};
+        bool sp_name = *vr::range<int>(0, 8) == 0, sp_file = *vr::range<int>(0, 5) == 0;
+        if (sp_name) p.name = std::string(special[*vr::range<int>(0, 12)]) + gtok(0, 3, "ab\\\"");
+        if (p.is_file) { p.filename = sp_file ? std::string(special[*vr::range<int>(0, 12)]) + gtok(0, 4, "ab.\\\";") : gtok(0, 12, "abcdefghijklmnopqrstuvwxyz0123456789_-. ()"); static const char *mimes[] = {"application/octet-stream", "text/plain", "image/png", "text/html"}; p.mime = mimes[*vr::range<int>(0, 4)]; }
         p.content = gen_content(b.boundary, p.is_file ? maxcontent : std::min(maxcontent, 400));
         b.parts.push_back(p);
-        b.hdr_style.push_back(*vr::range<int>(0, 16) | 1 * (p.name.find_first_of(" ()") != std::string::npos));
+        b.hdr_style.push_back(*vr::range<int>(0, 16) | 1 * (p.name.find_first_of(" ()\\\";=,") != std::string::npos));
+        if (sp_name || (p.is_file && sp_file)) VR.cls("gen.param_needs_escaping");
     }
     return b;
 }
